@@ -216,6 +216,19 @@ template<class X, unsigned I, unsigned N> struct extract_all_impl {
 template<class X, unsigned N> struct extract_all_impl<X, N, N> { static void go(const X&, uint64_t*) {} };
 template<class X> inline void extract_all(const X& x, uint64_t* b) { extract_all_impl<X, 0, X::width>::go(x, b); }
 
+// In unoptimised builds (-O0) _mm_undefined_*() and other uninitialised locals really read stale stack memory. Checks call this right
+// before the AVEL operation so that the memory its frame will occupy holds a Case-dependent pattern (all-ones = NaN / -1 on even k,
+// a varying byte on odd k); in optimised builds it compiles to nothing.
+#ifndef __OPTIMIZE__
+__attribute__((noinline)) inline void poison_below(uint64_t k) {
+    unsigned char buf[8192];
+    std::memset(buf, (k & 1) ? (unsigned char)(0x31 + k * 29) : 0xFF, sizeof buf);
+    asm volatile("" :: "r"(buf) : "memory");
+}
+#else
+inline void poison_below(uint64_t) {}
+#endif
+
 // ---- outcome helpers ----
 inline void fail(VpOutcome* o, int lane, const char* tag, const char* fmt, ...) __attribute__((format(printf, 4, 5)));
 inline void fail(VpOutcome* o, int lane, const char* tag, const char* fmt, ...) {
